@@ -181,9 +181,20 @@ PROPS = {
         "design_ref": "DESIGN.md §2.8, §2.4 (guard.orphan), §3 C17",
         "level_note": "trusts the clang 14 front end/CFG and the rule tables in lib/rules_life.py; virtual calls are expanded to all overriders",
     },
+    "C19": {
+        "title": "Values survive encoding into terminals and edge values",
+        "rules": [on_program(rules_guard.rule_int_overflow), on_program(rules_guard.rule_edge_for_value), on_program(rules_codec.rule_terminal_codec), on_program(rules_codec.rule_tokens)],
+        "explanation": STRUCTURAL + ". C19: range-guard clause (the stored long value itself is tested against intMin()/intMax(), which fold to the documented 31-bit bounds, before the flag bit is set; a value of the wrong range type is rejected) "
+                       "and codec-agreement clause (flag bit, shift amounts, zero/false ↔ handle 0, boolean coding agree between encoder and decoder; type letters agree between writer and reader).",
+        "assumptions": ["recovery of all 2^32 bit patterns is not decided (value enumeration is execution)", "sizeof(node_handle) == 4 as in the analysed build"],
+        "technique": "must-check dominance over clang CFGs with constant folding of the bounds; encoder/decoder signature comparison (shift/or events, switch-case tables)",
+        "level_text": "exact static rule check over terminal::{getIntegerHandle,getRealHandle,getHandle,setFromHandle,msb,intMin,intMax,read,write}, edge_value::{read,write} and forest::getEdgeForValue; decides the range-guard and codec-agreement clauses",
+        "design_ref": "DESIGN.md §2.4, §2.6, §3 C19",
+        "level_note": "trusts clang 14 constant evaluation and CFGs",
+    },
 }
 
-_PENDING = "check under construction in this round (planned rules: DESIGN.md §3); not claimed until it runs"
+_PENDING ="check under construction in this round (planned rules: DESIGN.md §3); not claimed until it runs"
 NOT_APPLICABLE = {
     "C03": "pointwise value semantics of a recursive partition builder/evaluator over all minterm multisets: no structural necessary condition that is not brittle (DESIGN §3 C03)",
     "C11": "order, multiplicity and counts of enumerated assignments are run-time sequences/arithmetic; shape facts of that code are decided under C16/C15/C07 (DESIGN §3 C11)",
